@@ -164,9 +164,12 @@ def record_cseg_encode(arr, block, how="C"):
     return case, raw
 
 
-def record_cseg_decode(buf, C, shape_xyz, block, dtype):
-    """C10 case for the compressed_segmentation decoder."""
+def record_cseg_decode(buf, C, shape_xyz, block, dtype, warm=()):
+    """C10 case for the compressed_segmentation decoder.  warm: (bytes, shape) pairs decoded
+    first with the SAME encoder object (their results are not judged)."""
     enc = cseg_encoder(dtype, C, block)
+    for wbuf, wshape in warm:
+        with_alarm(lambda: enc.decode(bytes(wbuf), tuple(wshape)))
     st, v = with_alarm(lambda: enc.decode(bytes(buf), tuple(shape_xyz)))
     return {"mode": "C10cseg", "cfg": cseg_cfg(C, shape_xyz, block, dtype),
             "dtype": str(np.dtype(dtype).name), "buf": buf_halves(buf),
@@ -247,9 +250,11 @@ def record_cseg_dataset(scales, dtype, C, order):
 
 
 # ------------------------------------------------------------------------- raw
-def record_raw_decode(buf, C, shape_xyz, dtype):
+def record_raw_decode(buf, C, shape_xyz, dtype, warm=()):
     from neuroglancer_scripts import chunk_encoding as ce
     enc = ce.RawChunkEncoder(dtype, C)
+    for wbuf, wshape in warm:
+        with_alarm(lambda: enc.decode(bytes(wbuf), tuple(wshape)))
     X, Y, Z = shape_xyz
     st, v = with_alarm(lambda: enc.decode(bytes(buf), (X, Y, Z)))
     return {"mode": "C10raw",
